@@ -9,6 +9,7 @@ import BiotiteModel.Proofs.C19Rows
 import BiotiteModel.Proofs.C19NJAdd
 import BiotiteModel.Proofs.C19NJCherry
 import BiotiteModel.Proofs.C19TreeMetric
+import BiotiteModel.Proofs.C19Audit
 import BiotiteModel.Gen.C19
 /-!
 # C19 — property theorems (trees contain every taxon once and keep distances)
@@ -276,6 +277,57 @@ theorem C19_newick_roundtrip_node {δ : Type} (C : Codec δ) (labels : Option (L
         fromNewick labels C.parseD C.zero s' = .ok (if inc then (t, e) else (t.erase C.zero, C.zero)) :=
   fromNewick_toNewick C labels inc t e hwf hl
 
+/-! ## Refusals happen exactly where the hypotheses end (hypothesis audit) -/
+
+/-- **UPGMA accepts every valid matrix**: symmetric by `allclose`, no negative entry, at least one row. -/
+theorem C19_upgma_total (n : Nat) (D : Nat → Nat → Rat) (h1 : allcloseSym n D = true)
+    (h2 : anyNegative n D = false) (hn : 0 < n) : ∃ t, upgma n D = .ok t :=
+  upgma_total n D h1 h2 hn
+
+/-- `upgma` raises `ValueError` exactly for asymmetric matrices and matrices with a negative entry
+(and `IndexError` for the empty matrix). -/
+theorem C19_upgma_rejects (n : Nat) (D : Nat → Nat → Rat) :
+    (upgma n D = .error .valueError ↔ (allcloseSym n D = false ∨ anyNegative n D = true)) ∧
+    (allcloseSym n D = true → anyNegative n D = false → n = 0 → upgma n D = .error .indexError) :=
+  upgma_rejects n D
+
+/-- `neighbor_joining` raises `ValueError` exactly for asymmetric matrices, fewer than four rows, or a
+negative entry. -/
+theorem C19_nj_rejects (n : Nat) (D : Nat → Nat → Rat) :
+    neighborJoining n D = .error .valueError ↔ (allcloseSym n D = false ∨ n < 4 ∨ anyNegative n D = true) :=
+  nj_rejects n D
+
+/-- `Tree()` raises `TreeError` exactly when a leaf index is not below the number of leaves. -/
+theorem C19_tree_rejects_index {δ : Type} (t : T δ) :
+    mkTree t = .error (.other "TreeError") ↔ ∃ i ∈ t.leaves, t.leaves.length ≤ i :=
+  mkTree_rejects t
+
+/-- `to_newick` raises `ValueError` exactly when the label of some leaf contains `, : ; ( )`
+(labels covering every leaf index). -/
+theorem C19_newick_rejects_illegal {δ : Type} (ls : List (List Char)) (inc : Bool) (showD : δ → List Char)
+    (t : T δ) (e : δ) (h : ∀ i ∈ t.leaves, i < ls.length) :
+    t.toNewick (some ls) inc showD e = .error .valueError ↔ ∃ i ∈ t.leaves, IllegalAt ls i :=
+  toNewick_rejects ls inc showD t e h
+
+/-- The reader model never abstains: for every string it returns a tree or a real exception, never the
+internal markers `fuel` / `unreachable`. -/
+theorem C19_from_newick_no_abstention {δ : Type} (labels : Option (List (List Char)))
+    (parseD : List Char → Option δ) (zero : δ) (s : List Char) :
+    fromNewick labels parseD zero s ≠ .error (.other "fuel") ∧
+    fromNewick labels parseD zero s ≠ .error (.other "unreachable") :=
+  fromNewick_no_abstention labels parseD zero (s.length + 1) s (Nat.lt_succ_self _)
+
+/-- The whitespace class of the reader model is exactly Python's `str.isspace` (regenerated from the
+interpreter on every run). -/
+theorem C19_gen_whitespace :
+    Gen.C19.whitespace.all (fun n => isWs (Char.ofNat n)) = true ∧
+    ∀ c : Char, isWs c = true → c.toNat ∈ Gen.C19.whitespace := by
+  refine ⟨by decide, ?_⟩
+  intro c h
+  simp only [isWs, Bool.or_eq_true, Bool.and_eq_true, decide_eq_true_eq, beq_iff_eq] at h
+  simp only [Gen.C19.whitespace, List.mem_cons, List.not_mem_nil, or_false]
+  omega
+
 /-! ## Defects of the unchanged code (negations of the full-strength statements, with witnesses
 replayed on the implementation; see known_findings.d/C19.json) -/
 
@@ -295,6 +347,24 @@ theorem C19_empty_label_defect :
         = .ok "();".toList ∧
     treeFromNewick (some [[]]) (fun _ => (none : Option Unit)) () "();".toList
         = .error .invalidFile := by
+  decide +kernel
+
+/-- **Defect.**  `Tree()` accepts a tree in which one index is carried by two leaves and another by
+none: `len` is 2 but `get_distance(0, 1)` raises. -/
+theorem C19_duplicate_index_defect :
+    mkTree (T.node (.cons (1 : Rat) (.leaf 0) (.cons 2 (.leaf 0) .nil))) =
+      .ok (T.node (.cons (1 : Rat) (.leaf 0) (.cons 2 (.leaf 0) .nil))) ∧
+    getDistance (T.node (.cons (1 : Rat) (.leaf 0) (.cons 2 (.leaf 0) .nil))) false 0 1
+      = .error (.other "TreeError") := by
+  decide +kernel
+
+/-- **Defect.**  Duplicate labels are written as they are and read back *silently* as a different tree
+(both leaves get the first index). -/
+theorem C19_duplicate_label_defect :
+    treeToNewick (some ["a".toList, "a".toList]) false (fun _ : Unit => []) ()
+        (.node (.cons () (.leaf 0) (.cons () (.leaf 1) .nil))) = .ok "(a,a);".toList ∧
+    treeFromNewick (some ["a".toList, "a".toList]) (fun _ => (none : Option Unit)) () "(a,a);".toList
+        = .ok (.node (.cons () (.leaf 0) (.cons () (.leaf 0) .nil))) := by
   decide +kernel
 
 /-- **Defect.**  `as_binary(TreeNode)` never returns a node: a tuple or a `TypeError`. -/
